@@ -134,7 +134,11 @@ theorem nextBlob_framed (first : Bool) (hdr blob rest : Bytes)
     rw [List.append_assoc, List.drop_left' rfl]
   have h2' : ¬ blob.length > PbfFraming.maxUncompressedBlobSize := by omega
   have hshort2 : ¬ (blob ++ rest).length < blob.length := by simp only [List.length_append]; omega
-  simp only [hl4, ↓reduceIte, hrd, hdrop, hmax, hz, Bool.false_eq_true, hshort, htake, hb, hdrop2, h2', hshort2,
+  have hne : (be32 hdr.length ++ (hdr ++ blob ++ rest)).isEmpty = false := by
+    cases hc : be32 hdr.length ++ (hdr ++ blob ++ rest) with
+    | nil => rw [hc] at hl4; simp at hl4
+    | cons a as => rfl
+  simp only [hne, hl4, ↓reduceIte, hrd, hdrop, hmax, hz, Bool.false_eq_true, hshort, htake, hb, hdrop2, h2', hshort2,
     List.take_left' rfl, List.drop_left' rfl]
 
 /-- the parser cuts the Blob the writer framed out of the input again -/
